@@ -187,6 +187,30 @@ def _operator_error_paths():
     return out
 
 
+def _limit_values():
+    """values exactly at, one below and one above the limits of the fields they go into"""
+    out = []
+    for lim in (39, 40, 41):
+        for form in (".rad50 <%o>", ".rad50 <%o><%o>", ".rad50 <%o><47><47>", ".rad50 <47><%o><47>", ".rad50 /Z/<%o><47>", ".rad50 <%o><%o><%o>"):
+            out.append(form.replace("%o", "%o" % lim) + "\n")
+    for lim in (255, 256, -128, -129, -255, -256, -257):
+        out.append(".byte %d.\n" % lim)
+        out.append(".ascii <%d.>\n" % lim)
+        out.append(".ascii \"a\"<%d.>\"b\"\n" % lim)
+    for lim in (65535, 65536, -32768, -32769, -65535, -65536, -65537):
+        for form in (".word %d.", "mov #%d., r0", "mov %d.(r1), r0", ".blkb %d.", ".blkw %d.", ".align %d.", ".repeat %d. { }", ".link %d.", ". = %d.", "emt %d.", "mark %d.", "sob r1, . - %d.",
+                     ".dword %d. * 65536.", "br . + %d."):
+            out.append(form % lim + "\n")
+    for lim in (0, 1, 7, 8, -1):
+        for form in ("mov %%%d, r0", "ldf (r0), ac%d", "clr (%%%d)+", "spl %d", "rts %%%d"):
+            out.append(form % lim + "\n")
+    out += ["", "\n", ";", "; c", " ", "\t", ".end", ".end\n", ".once", "x:", "x = 1", "nop", "nop ", "mov (r1)+, (r2)+ ", "mov (r1)+, (r2)+\t\t", ".word 1,", ".word 1, ", ".ascii \"a\"", ".ascii \"", "'", "\"",
+            "x:\nx:", "X:\nx:", "x = 1\nX = 2\n", "Count:\nCOUNT = 10\n", "count = 1\nCount:\n", ".link 0\nnop\n", ". = 0\nnop\n", ".link 0\nmake_bin\n", ".repeat 0 { }\n", ".blkb 0\n", ".align 1\n",
+            ".ascii //\n", ".asciz //\n", ".rad50 //\n", ".word ^R\n", "insert_file \"empty.bin\"\n", ".include \"empty.mac\"\n"]
+    return out
+
+
+FAULTS += _limit_values()
 FAULTS += _operator_error_paths()[::3]          # a third of them in the fixed list; the rest are sampled below
 
 
